@@ -21,6 +21,7 @@ from tplpaths import Templates, consistent
 from shapes import Shaper, render, alternatives
 
 PROP = "C03"
+GEN_MODELS_PATH = "tauri_typegen::generators::base::BaseBindingsGenerator::generate_models"
 
 
 def atoms_dnf(e):
@@ -386,6 +387,36 @@ def check(ctx):
     rules.append(r4)
 
     # ---------------------------------------------------------------- D5
+    # between discovery and generation nothing removes commands: the Vec<CommandInfo> handed to generate_models is the analyzer's result, and no
+    # shrinking operation (dedup*, retain, truncate, remove, pop, drain, clear, split_off, swap_remove) is applied to it on the way
+    from unord import Unord as _Unord
+    U_ = _Unord(P)
+    SHRINKERS = ("dedup", "dedup_by", "dedup_by_key", "retain", "retain_mut", "truncate", "remove", "pop", "drain", "clear", "split_off", "swap_remove", "extract_if")
+    n_gen = 0
+    for fid in sorted(reach):
+        f = P.fns[fid]
+        gens = [c for c in f.calls if c.path == GEN_MODELS_PATH and c.bb in f.reach_blocks]
+        for g in gens:
+            n_gen += 1
+            cmd_arg = None
+            for a in g.args:
+                t = f.describe_origin(f.origin(a), short=False, deep=4)
+                if "CommandInfo" in (f._operand_ty(a) or "") or "analyze_project" in t:
+                    cmd_arg = a
+                    break
+            if cmd_arg is None:
+                cmd_arg = g.args[1] if len(g.args) > 1 else None
+            base = U_._base_local(f, cmd_arg) if cmd_arg is not None else None
+            shrunk = []
+            for c in f.calls:
+                if c.name in SHRINKERS and c.args and c.bb in f.reach_blocks and "CommandInfo" in " ".join(c.generics + [c.self_ty or ""]) and U_._base_local(f, c.args[0]) == base:
+                    shrunk.append(c)
+            if shrunk:
+                r2.bad(V(r2.id, fid, "command-list-shrunk:%s" % ",".join(sorted(set(c.name for c in shrunk))), "the discovered commands are reduced by %s before generation: some annotated functions get no wrapper" % sorted(set(c.name for c in shrunk)), shrunk[0].file, shrunk[0].line))
+            else:
+                r2.ok("%s: the discovered command list reaches generate_models unshrunk" % short_path(fid))
+    if n_gen == 0:
+        r2.bad(V(r2.id, "<anchor>", "missing:generate_models-callers", "no reachable caller of generate_models found"))
     r5 = Rule("C03-D5-wrapper-template", "D5",
               "every control path of typescript/ and zod/ command_function has exactly one `export async function {{ command.tsFunctionName }}` and "
               "exactly one invoke(..) whose first argument is '{{ command.name }}' unfiltered; the return annotation is Promise<{{ command.returnTypeTs | "
